@@ -2,7 +2,7 @@
     Model: Store/FinalizeDefs.v (isBlockOutdated, finalizeBlocks, finalizeBlockImpl incl. fix 057feaed,
     the TIP_IS_FINAL short-cuts of comparePopScore, setState with assertBlockCanBeUnapplied). *)
 From Coq Require Import NArith List Bool.
-From VB Require Import Store.FinalizeDefs Store.FinalizeProofs Store.FinalizeTheorems Store.FinalizeOutdated.
+From VB Require Import Store.FinalizeDefs Store.FinalizeProofs Store.FinalizeTheorems Store.FinalizeOutdated Store.FinalizeTips.
 Import ListNotations.
 Local Open Scope N_scope.
 
@@ -88,3 +88,23 @@ Theorem C09_outdated_iff_not_descendant :
   outdated (S r) fuel t fin cand = negb (descends fuel t cand fin).
 Proof. exact outdated_iff_not_descends. Qed.
 Print Assumptions C09_outdated_iff_not_descendant.
+
+(* the tip erasure of finalizeBlockImpl keeps every tip that descends from the final block and does not lower the
+   final block - EXCEPT when an outdated off-chain tip has an unsaved block on its branch (carved out by
+   [no_dirty_outdated_forks], known finding tips-dirty-fork-erased) *)
+Theorem C09_tips_kept_except_dirty_forks :
+  forall fuel t fin tips tp,
+  no_dirty_outdated_forks fuel t fin tips ->
+  In tp tips -> descends fuel t tp fin = true ->
+  In tp (fst (erase_tips fuel t tips fin)) /\ snd (erase_tips fuel t tips fin) = fin.
+Proof. exact tips_kept_except_dirty_forks. Qed.
+Print Assumptions C09_tips_kept_except_dirty_forks.
+
+(* ... and without that condition the statement is false (corpus/C09/F10_dirty_fork_erased_from_tips.json):
+   the final block is lowered to block 1, block 16 descends from it and is retained, but it is erased from tips_ *)
+Theorem C09_tips_dirty_fork_erased_refuted :
+  let t' := finalizeBlocks 40 f10_tree 8 12 1000000 in
+  highest_final t' = Some 1 /\ descends 40 t' 16 1 = true /\ flookup (t_blocks t') 16 <> None /\
+  ~ In 16 (t_tips t') /\ In 13 (t_tips t').
+Proof. exact tips_dirty_fork_erased_refuted. Qed.
+Print Assumptions C09_tips_dirty_fork_erased_refuted.
